@@ -174,3 +174,42 @@ def kw(call: ast.Call, name: str) -> Optional[ast.AST]:
         if k.arg == name:
             return k.value
     return None
+
+
+def deref_expr(prog, fn, expr):
+    """canonical text of ``expr`` with local names replaced by their unique defining expression."""
+    import copy
+
+    class D(ast.NodeTransformer):
+        def __init__(self):
+            self.depth = 0
+
+        def visit_Subscript(self, node):
+            if not isinstance(node.value, ast.Name):
+                node.value = self.visit(node.value)
+            node.slice = self.visit(node.slice)
+            return node
+
+        def visit_Attribute(self, node):
+            if not isinstance(node.value, ast.Name):
+                node.value = self.visit(node.value)
+            return node
+
+        def visit_Name(self, node):
+            if isinstance(node.ctx, ast.Load) and self.depth < 4:
+                defs = reaching_assignments(prog, fn, node.id, expr)
+                if len(defs) == 1 and defs[0] is not None and not isinstance(defs[0], ast.Name):
+                    self.depth += 1
+                    try:
+                        return self.visit(copy.deepcopy(defs[0]))
+                    finally:
+                        self.depth -= 1
+            return node
+
+    return D().visit(copy.deepcopy(expr))
+
+
+def deref_canon(prog, fn, expr) -> str:
+    return canon(deref_expr(prog, fn, expr))
+
+
